@@ -364,10 +364,14 @@ func (te *tableEngine) continueGame(alivePlayers []*TablePlayerState) error {
 				if te.shouldAutoGameOpen() {
 					// fmt.Println("[DEBUG#continueGame] delay -> TableGameOpen")
 					// return te.TableGameOpen()
+					// everybody who can be dealt into the next hand is expected, not only the
+					// survivors of this one (a player who sat out or arrived meanwhile counts too)
 					nextGameCount := te.table.State.GameCount + 1
 					participants := make(map[string]int)
-					for idx, player := range alivePlayers {
-						participants[player.PlayerID] = idx
+					for _, player := range te.table.State.PlayerStates {
+						if player.IsIn && player.Bankroll > 0 {
+							participants[player.PlayerID] = len(participants)
+						}
 					}
 					te.SetUpTableGame(nextGameCount, participants)
 					return nil
